@@ -87,6 +87,8 @@ def run_property(prop: str, tier: str, repo: str, overlay=None, *, write_evidenc
         from . import sym as _sym
         _sym.SIGNATURES.clear()
         _sym.SIGNATURES.update(nz.signatures)
+        _sym.DEFAULTS.clear()
+        _sym.DEFAULTS.update(getattr(nz, "defaults", {}))
         views.append(("normalised", Project(repo, overlay, normalizer=nz)))
         views.append(("normalised-statements", Project(repo, overlay, normalizer=StatementNormalizer(nz))))
         views[-1][1].view = "normalised-statements"
